@@ -216,6 +216,10 @@ impl<'a> RLexer<'a> {
                         D_RESET_CONTINUE => {
                             self.match_start = self.pos;
                         }
+                        D_RESET_RETURN if scripted => {
+                            self.match_start = self.pos;
+                            ret = true;
+                        }
                         D_ERR if matches!(kind, Kind::Fallible(_)) => {
                             let s = loc_at(&self.input, self.match_start);
                             self.match_start = self.pos;
